@@ -12,6 +12,7 @@ import MpirProofs.Lemmas.AliasBits
 import MpirProofs.Lemmas.AliasRoot
 import MpirProofs.Lemmas.AliasShift2
 import MpirProofs.Lemmas.AliasGcd
+import MpirProofs.Lemmas.AliasR2exp
 namespace Mpir.AliasMem
 open Mpir
 
@@ -71,6 +72,18 @@ example : look2 (cdiv_q_2exp 2 2 2 (ofInts [0, 0, 2 ^ 128 - 1])) 3 = .ok [(0, 1,
 -- cnt = 64: limb 0 has been overwritten by the zero limb 1, the rounding is lost (2^64 instead of 2^64 + 1)
 example : look2 (cfdiv_q_2expV { roundBeforeShift := false } 0 0 64 1 (ofInts [2 ^ 128 + 5])) 1 = .ok [(2 ^ 64, 3, 0)] := by decide
 example : look2 (cdiv_q_2exp 0 0 64 (ofInts [2 ^ 128 + 5])) 1 = .ok [(2 ^ 64 + 1, 3, 0)] := by decide
+
+/-- mpz_tdiv_r_2exp (mpz/tdiv_r_2exp.c): `res = in` in place (nothing is copied, the masked limb is stored over the
+    operand's limb), or separate (low limbs copied after the reallocation of res). -/
+theorem tdiv_r_2exp_ptr_spec {s : St} (h : Inv s) {r u : Nat} (hr : r < s.nv) (hu : u < s.nv) (cnt : Nat) :
+    ∃ s', tdiv_r_2exp r u cnt s = .ok s' ∧ Inv s' ∧ s'.nv = s.nv ∧
+      s'.value r = Int.tmod (s.value u) ((2 ^ cnt : Nat) : Int) ∧
+      ∀ i, i < s.nv → i ≠ r → s'.value i = s.value i :=
+  tdiv_r_2exp_ok h hr hu cnt
+
+example : look2 (tdiv_r_2exp 0 0 70 exSt2) 1 = .ok [(12345, 4, 0)] := by decide
+example : look2 (tdiv_r_2exp 2 1 68 exSt2) 3 = .ok [(2 ^ 200 + 12345, 4, 0), (-(2 ^ 70 + 3), 2, 1), (-3, 1, 2)] := by decide
+example : look2 (tdiv_r_2exp 1 1 68 exSt2) 2 = .ok [(2 ^ 200 + 12345, 4, 0), (-3, 2, 1)] := by decide
 
 /-! ## mpz_and, mpz_xor, mpz_com (and the plumbing shared with mpz_ior) -/
 
